@@ -197,9 +197,52 @@ def scenario(eng, config="cat_x_mr", all_pairs=False, light=False):
     return obs
 
 
+def cubeset_reuse(eng):
+    """a multitable built three times from the SAME response dicts (summary cube + single-column filter cube that the library
+    re-inflates): every later build reports what a fresh evaluation on pristine copies reports"""
+    from symx.inject import SymList
+    from .cellworld import NUM_META
+
+    def text_dim(values):
+        els = [{"id": i, "missing": False, "value": v} for i, v in enumerate(values)]
+        els.append({"id": -1, "missing": True, "value": {"?": -1}})
+        return {"derived": False, "references": {"alias": "brand", "name": "brand"},
+                "type": {"class": "enum", "elements": els, "subtype": {"class": "text", "missing_reasons": {"No Data": -1}, "missing_rules": {}}}}
+
+    def resp(values, counts, single):
+        r = {"element": "crunch:cube", "dimensions": [text_dim(values)], "counts": SymList(list(counts) + [0]), "missing": 0, "n": 12,
+             "measures": {"count": {"data": SymList(list(counts) + [0]), "n_missing": 0, "metadata": NUM_META}}}
+        if single:
+            r["is_single_col_cube"] = True
+        return {"result": r}
+    su = [eng.real("su%d" % i, strict_lo=0) for i in range(4)]
+    fu = [eng.real("fu%d" % i, strict_lo=0) for i in range(2)]
+    P = eng.pyreal("P", lo=0)
+    tr = [{}, {"rows_dimension": {"elements": {"0": {"hide": True}}}}]
+    pristine = [resp(["A", "B", "C", "D"], su, False), resp(["B", "D"], fu, True)]
+    names = ("counts", "row_labels", "table_proportions", "unweighted_counts", "shape", "population_counts")
+
+    def read_all(cs):
+        out = {}
+        for c in (0, 1):
+            part = cs.partition_sets[0][c]
+            for p in names:
+                out[c, p] = R.read(part, p)
+        return out
+    fresh = read_all(CubeSet(copy.deepcopy(pristine), copy.deepcopy(tr), population=P, min_base=0))
+    shared_r, shared_t = copy.deepcopy(pristine), copy.deepcopy(tr)
+    obs = []
+    for round_ in (1, 2, 3):
+        got = read_all(CubeSet(shared_r, shared_t, population=P, min_base=0))
+        for (c, p), v in got.items():
+            obs += R.compare("cube set built %d. time from the same objects: cube %d %s" % (round_, c, p), v, fresh[c, p])
+    return obs
+
+
 def specs(tier):
     out = []
     for cfg in ("cat_x_mr", "cat_x_cat", "3d", "mr_strand", "cat_strand", "waves", "waves_smoothing"):
         out.append(dict(module="props.c18", fn="scenario", name="%s schedules" % cfg,
                         params=dict(config=cfg, all_pairs=(tier == "thorough" and cfg not in ("3d", "waves")), light=(cfg in ("3d", "waves"))), max_paths=60, vc_timeouts=(5, 40)))
+    out.append(dict(module="props.c18", fn="cubeset_reuse", name="cube set rebuilt from the same response objects", params=dict(), max_paths=60, vc_timeouts=(5, 40)))
     return out
